@@ -4,6 +4,7 @@ mod ctx;
 mod node;
 mod hand;
 mod svc;
+mod taint;
 
 #[allow(dead_code, unused_imports, clippy::all)]
 pub mod gen {
